@@ -218,7 +218,10 @@ func c14Run(c c14Case) error {
 			return fmt.Errorf("under concurrency %s = %v, a fresh copy alone gives %v", o.what, math.Float32frombits(o.bits), math.Float32frombits(want))
 		}
 	}
-	if !reflect.DeepEqual(cr, crSnap) {
+	// the caller-visible fields only: what an implementation keeps in private
+	// fields (guarded derived data, say) is its own business
+	if cr.Length != crSnap.Length || cr.Allow != crSnap.Allow || cr.Require != crSnap.Require || cr.Exclude != crSnap.Exclude ||
+		cr.AllowChars != crSnap.AllowChars || cr.ExcludeChars != crSnap.ExcludeChars || !reflect.DeepEqual(cr.RequireSets, crSnap.RequireSets) {
 		return fmt.Errorf("shared CharRecipe changed: %+v -> %+v", crSnap, cr)
 	}
 	if wr.Length != wlSnap.Length || wr.Capitalize != wlSnap.Capitalize || wr.SeparatorChar != wlSnap.SeparatorChar {
@@ -293,11 +296,16 @@ func c14Pairs() [][2]c14Op {
 	return out
 }
 
+var c14PairCtr int
+
 func TestC14(t *testing.T) {
 	pairs := c14Pairs()
 	ev.Check(t, "c14_pairs", ev.N(6*len(pairs), 60*len(pairs)), func(t *rapid.T) c14Case {
 		c := c14Base(t)
-		p := pairs[rapid.IntRange(0, len(pairs)-1).Draw(t, "pair")]
+		// systematic: the pairs are taken in turn (each shard starts where the
+		// previous one ends), so that every pair gets the same number of cases
+		p := pairs[(c14PairCtr+ev.Cfg.Shard*ev.N(6*len(pairs), 60*len(pairs)))%len(pairs)]
+		c14PairCtr++
 		c.G = [][]c14Op{{p[0]}, {p[1]}, {p[0]}, {p[1]}}
 		ev.Class("pair:" + p[0].Target + "." + p[0].Method + "|" + p[1].Target + "." + p[1].Method)
 		return c
